@@ -262,10 +262,72 @@ def check_wrapper_partial(so, si, how, stats):
         realfn.unload(g)
 
 
+def check_wrapper_variants(so, si, stats):
+    """The callee parameter has a default and is NOT bound (must stay unresolved: only bound
+    positionals resolve callee parameters); the wrapper is a bound method and the callee IS bound
+    positionally (must resolve exactly like the plain-function twin)."""
+    import sigtools
+    from sigtools import signatures
+    va = next((p.name for p in so if p.kind == VP), None)
+    vk = next((p.name for p in so if p.kind == VK), None)
+    parts = ', '.join(x for x in ('*' + va if va else '', '**' + vk if vk else '') if x)
+    if any(p.kind == PO for p in so):
+        return
+    src = ('def callee(%s):\n    return 0\n\ndef other(*args, **kwargs):\n    return 0\n\n'
+           'def wdefault(tag, fn=callee%s):\n    return fn(%s)\n\n'
+           'def wfunc(fn, tag%s):\n    return fn(%s)\n\n'
+           'class K(object):\n    def wmeth(self, fn, tag%s):\n        return fn(%s)\n' % (
+               universe.spec_text(si), ''.join(', ' + x for x in [universe.spec_text(so)] if x), parts,
+               ''.join(', ' + x for x in [universe.spec_text(so)] if x), parts,
+               ''.join(', ' + x for x in [universe.spec_text(so)] if x), parts))
+    if any(p.kind in (PO, POK) and p.default is None for p in so):
+        return      # a required positional after fn=default is not valid Python
+    case = {'kind': 'wrapper-variants', 'outer': list(map(list, so)), 'inner': list(map(list, si)), 'source': src}
+    try:
+        g = realfn.load(src)
+    except SyntaxError:
+        return
+    try:
+        stats.case()
+        nk = lambda s: [(q.name, int(q.kind)) for q in s.parameters.values()]
+        p1 = functools.partial(g['wdefault'], 'job')
+        try:
+            s1, plain1 = sigtools.signature(p1), signatures.signature(p1)
+        except ValueError:
+            stats.cls('wrapper/default/raised')
+        else:
+            stats.cls('wrapper/default')
+            if nk(s1) != nk(plain1):
+                stats.fail('C19/wrapper/default-resolved', case,
+                           'partial(wdefault, "job") leaves fn unbound (its default is only a default): sigtools.signature gives %s, plain %s\n%s' % (s1, plain1, src))
+        pf = functools.partial(g['wfunc'], g['callee'])
+        pm = functools.partial(g['K']().wmeth, g['callee'])
+        try:
+            sf = sigtools.signature(pf)
+        except ValueError:
+            sf = None
+        try:
+            sm = sigtools.signature(pm)
+        except ValueError:
+            sm = None
+        stats.cls('wrapper/method-twin')
+        if (sf is None) != (sm is None) or (sf is not None and nk(sf) != nk(sm)):
+            stats.fail('C19/wrapper/method-twin', case,
+                       'partial(wfunc, callee) -> %s but partial(K().wmeth, callee) -> %s (same body, bound method)\n%s' % (sf, sm, src))
+        elif sf is not None and nk(sf) != nk(signatures.signature(pf)):
+            stats.nontriv(('method-twin', universe.spec_text(so), universe.spec_text(si)))
+            depths = sm.sources['+depths']
+            if depths.get(pm) != 0:
+                stats.fail('C19/wrapper/method-depth', case, "partial(K().wmeth, callee): sources['+depths'][partial] = %r\n%s" % (depths.get(pm), src))
+    finally:
+        realfn.unload(g)
+
+
 def shard_wrappers(arg):
     pairs, = arg
     st = Stats()
     for so, si in pairs:
+        check_wrapper_variants(so, si, st)
         for how in ('positional', 'keyword'):
             check_wrapper_partial(so, si, how, st)
     return st
@@ -329,6 +391,9 @@ def run(ctx):
 
 
 def replay(case, stats):
+    if case.get('kind') == 'wrapper-variants':
+        check_wrapper_variants(tuple(Par(*p) for p in case['outer']), tuple(Par(*p) for p in case['inner']), stats)
+        return
     if case.get('kind') == 'wrapper':
         check_wrapper_partial(tuple(Par(*p) for p in case['outer']), tuple(Par(*p) for p in case['inner']), case['how'], stats)
         return
